@@ -8,6 +8,10 @@ correspond : whole programs with a side-effect trace from gen/cont08.py (+ corpu
              `c08`, one fresh Engine per program; default configuration, STEEL_JIT=false, STEEL_VERIF_GC_EVERY=1)
              vs the reference semantics S (lean/SteelVerif/C08/Spec.lean, CEK machine with the standard winders
              algorithm comparing extents by identity): values of the top-level forms, the trace, stdout, outcome.
+             A sixth of the programs are HISTORIES: pieces separated by `;;;---` are separate evaluations on one
+             engine (a REPL session); forms store a continuation and die with an uncaught error, later pieces
+             invoke it 0/1/n times under winds, handlers, calls.  (While finding K08h is open — vm.rs read by the
+             translator — a cross-evaluation invocation is undefined behaviour: those programs are skipped.)
 oracle     : S.  A real ≠ S difference is a VIOLATION unless it is attributed to an open finding:
              class predicate (computed by S's run: the negation of the guard of the `_partial` theorem) AND the
              real engine behaves exactly like the faithful variant (`c08driver impl`: dynamic-wind / do-wind /
@@ -31,8 +35,8 @@ META = {
     "ready": True,
     "category": "proof",
     "technique": "Lean 4 theorems about (1) the winders algorithm of parameters.scm transcribed as list functions and (2) a flat-stack VM model of vm.rs with lazily captured continuation marks (Open/Closed), the two reinstatement paths and the handler search, for all operation sequences; the decisions the models depend on are re-read from parameters.scm / vm.rs on every run; + differential execution of generated continuation programs (trace of side effects, values): real engine (default, STEEL_JIT=false, collection at every allocation) vs an executable CEK reference semantics with R7RS winders (extents compared by identity)",
-    "level_text": "Proved (SteelVerif/C08/Props.lean, 22 audited theorems, no bound on stack depth, frames, captures or operations): wind_exactly_once (a transfer between winders A'++C and B'++C runs `after` of A' innermost-first then `before` of B' outermost-first, each once, nothing else, for the comparison parameters.scm uses — read from the source on every run: a return to equal? breaks the decide obligation code_compares_extents_by_identity; wind_exactly_once_partial under DistinctExtentsDiffer + decide'd counterexample for equal?), wind_normal_and_error_once (dynamic-wind's push / pop / handler mechanism = `before … after` exactly once per entered body in nesting order, on return and on error), wrapper_eq_doWind, wind_events_nodup; lazy_capture_eq_eager (for every sequence of frame push/pop, changes of the running frame, store writes, captures, invocations and error unwinds, a successful invocation of a captured continuation — mark closed or still open, either reference-count branch — reinstates exactly the operand stack, frames, ip and sp that an eager full copy at capture would), invoke_restores_pending_work (… frames, locals and argument temporaries of the capture; the store is the current one), invoke_twice_same (multi-shot), handler_nearest / handler_nearest_code (innermost handler frame, stack cut at its base, error pushed, frames below untouched; _partial + decide'd witness for code that pushes a dummy frame), invoke_never_panics / _code (every captured continuation stays invocable under the mark-closing discipline the code has now — code_mark_discipline, read from vm.rs; decide'd witnesses that the former discipline panicked). The VM model is my transcription of vm.rs at the level of frames and marks with abstract instructions; reset/shift, the JIT and nested interpreter instances are not modelled in Lean: they, the whole pipeline and dynamic-wind/handlers end to end are covered by the differential run against the reference semantics (20 000 programs x 3 configurations in the thorough tier).",
-    "level_note": "Trusted: Lean kernel, the transcription of vm.rs / parameters.scm into Model.lean / Wind.lean (tied by translate/c08_code.py for five decisions, by the debug assertions of the engine build — it keeps the eager copy next to every open mark and asserts equality — and by the differential run), C08/Spec.lean as the reading of the property (deviations: handler result is the value of the handler expression; a top-level form is the extent of its continuations), harness/driver/comparison, generator coverage. Open findings: K08b (reset/shift/with-handler share one meta-continuation cell and use the primitive call/cc) and K08g (dynamic-wind's handler, small fix proposed) are attributed by class predicate (from S's run) AND exact agreement of the real engine with the faithful variant (parameters.scm + stdlib.scm transcribed into the object language, `c08driver impl`); K08e (continuations captured/invoked inside callbacks of native higher-order built-ins: nested interpreter instance, below the source level) by a syntactic class predicate. Fixed during the build: D12/K08a, K08c, K08d, K08f (regression programs in findings/, run first in every tier). pop_count bookkeeping, threads, continuations crossing make_thread are not covered.",
+    "level_text": "Proved (SteelVerif/C08/Props.lean, 22 audited theorems, no bound on stack depth, frames, captures or operations): wind_exactly_once (a transfer between winders A'++C and B'++C runs `after` of A' innermost-first then `before` of B' outermost-first, each once, nothing else, for the comparison parameters.scm uses — read from the source on every run: a return to equal? breaks the decide obligation code_compares_extents_by_identity; wind_exactly_once_partial under DistinctExtentsDiffer + decide'd counterexample for equal?), wind_normal_and_error_once (dynamic-wind's push / pop / handler mechanism = `before … after` exactly once per entered body in nesting order, on return and on error), wrapper_eq_doWind, wind_events_nodup; lazy_capture_eq_eager (for every sequence of frame push/pop, changes of the running frame, store writes, captures, invocations and error unwinds, a successful invocation of a captured continuation — mark closed or still open, either reference-count branch — reinstates exactly the operand stack, frames, ip and sp that an eager full copy at capture would), invoke_restores_pending_work (… frames, locals and argument temporaries of the capture; the store is the current one), invoke_twice_same (multi-shot), handler_nearest / handler_nearest_code (innermost handler frame, stack cut at its base, error pushed, frames below untouched; _partial + decide'd witness for code that pushes a dummy frame), invoke_never_panics / _code (every captured continuation stays invocable under the mark-closing discipline the code has now — code_mark_discipline, read from vm.rs: the mark of a popped frame is closed before it is taken, EVERY frame an error drops goes through the unwind loop — no shortcut that clears the frames —, a shared open mark is closed on invocation, no dummy frame; decide'd witnesses that the former discipline panicked). The VM model is my transcription of vm.rs at the level of frames and marks with abstract instructions; reset/shift, the JIT and nested interpreter instances are not modelled in Lean: they, the whole pipeline and dynamic-wind/handlers end to end are covered by the differential run against the reference semantics (20 000 programs x 3 configurations in the thorough tier).",
+    "level_note": "Trusted: Lean kernel, the transcription of vm.rs / parameters.scm into Model.lean / Wind.lean (tied by translate/c08_code.py for five decisions, by the debug assertions of the engine build — it keeps the eager copy next to every open mark and asserts equality — and by the differential run), C08/Spec.lean as the reading of the property (deviations: handler result is the value of the handler expression; a top-level form is the extent of its continuations), harness/driver/comparison, generator coverage. Open findings: K08b (reset/shift/with-handler share one meta-continuation cell and use the primitive call/cc) is attributed by class predicate (from S's run) AND exact agreement of the real engine with the faithful variant (parameters.scm + stdlib.scm transcribed into the object language, `c08driver impl`); K08e (continuations captured/invoked inside callbacks of native higher-order built-ins: nested interpreter instance, below the source level) by a syntactic class predicate. K08h (a continuation invoked by a later evaluation than the one that captured it resumes in the freed instructions of its form: undefined behaviour, fix proposed) by its class predicate alone, and only while vm.rs lacks the keep-alive; until then generated histories that invoke across evaluations are skipped (counted in the evidence) and a shortcut around the unwind loop is caught by the decide obligation only. Fixed during the build: D12/K08a, K08c, K08d, K08f, K08g (regression programs in findings/, run first in every tier). pop_count bookkeeping, threads, continuations crossing make_thread are not covered.",
 }
 
 SEP = "\n;;;===\n"
@@ -202,6 +206,10 @@ def classify(real, spec, impls, known, text=None):
     impls = [result of the faithful variant (`c08driver impl` / `impl-guarded`: parameters.scm + stdlib.scm
     transcribed into the object language, run on primitive continuations)]."""
     ev, iev = spec["ev"], impls[0]["ev"]
+    # K08h: a continuation invoked by a later evaluation than the one that captured it resumes in freed memory
+    # (undefined behaviour: any outcome).  `known` carries K08h only while vm.rs lacks the keep-alive (run()).
+    if "K08h" in known and ev.get("cross-eval-invoke", 0) > 0:
+        return "K08h"
     # K08c: mechanism below the CEK level (reference counts of marks): class predicate + the specific panic
     if "K08c" in known and real["res"][0] == "panic" and PANIC_OPEN in real["res"][1] and (
             ev.get("orphan-invoke", 0) > 0 or iev.get("orphan-invoke", 0) > 0):
@@ -247,6 +255,10 @@ def load_corpus():
     return progs
 
 
+def keeps_root(code):
+    return bool(code.get("vm", {}).get("continuation_keeps_root"))
+
+
 def run(ctx):
     known = load_known(ctx)
     # translate: the decisions of parameters.scm / vm.rs the Lean models are parameterised by
@@ -278,6 +290,16 @@ def run(ctx):
     spec = run_spec(progs)
     impl = run_spec(progs, impl_mode)
     ctx.log("S done: %d programs" % len(progs))
+    # K08h: while continuations do not keep the instructions of their form alive, a cross-evaluation invocation is
+    # undefined behaviour (and often a hang): such programs cannot be judged.  Only the witnesses of the finding
+    # run (short timeout); the generated ones are counted as skipped.  With the keep-alive in vm.rs they all run
+    # and K08h is no class any more.
+    ub = not keeps_root(code)
+    if not ub:
+        known.pop("K08h", None)
+    xe = [i for i, m in enumerate(spec) if m["ev"].get("cross-eval-invoke", 0) > 0]
+    ub_skipped = set(i for i in xe if ub and not names[i].startswith("C08-K08h"))
+    ub_short = set(i for i in xe if ub and names[i].startswith("C08-K08h"))
     stats = {"programs": len(progs), "configs": {}, "features": {}, "events": {}, "outcomes": {"ok": 0, "err": 0, "timeout": 0},
              "known_hits": {}, "disagreements_checked": 0, "samples": [], "agree": 0}
     for f in feats:
@@ -290,7 +312,7 @@ def run(ctx):
         for k, v in m["ev"].items():
             if v:
                 stats["events"][k] = stats["events"].get(k, 0) + 1
-        if not to:
+        if not to and i not in ub_skipped:
             judged.append(i)
     nviol = 0
     for cname, env in CONFIGS:
@@ -298,9 +320,15 @@ def run(ctx):
         if ctx.quick() and cname != "default":
             # quick tier: the other configurations on the corpus and on every second generated program
             idxs = [i for i in judged if i < len(corpus) or (i % 2 == (0 if cname == "nojit" else 1))]
-        fresh = [i for i in idxs if i < len(corpus)]
+        fresh = [i for i in idxs if i < len(corpus) and i not in ub_short]
         reused = [i for i in idxs if i >= len(corpus)]
         res = dict(zip(fresh, run_real([progs[i] for i in fresh], env=env)))
+        # (undefined behaviour, often a hang: the witnesses run in the default configuration only, one process each)
+        if cname != "default":
+            idxs = [i for i in idxs if i not in ub_short]
+        short = [i for i in idxs if i in ub_short]
+        for i in short:
+            res[i] = run_real([progs[i]], env=env, timeout=10)[0]
         res.update(zip(reused, run_real([progs[i] for i in reused], env=env, reuse=10)))
         # every disagreement seen on a shared engine is confirmed on a fresh one
         redo = [i for i in reused if not same(res[i], spec[i])]
@@ -338,9 +366,11 @@ def run(ctx):
         "obligations": pr["obligations"], "discharged": pr["discharged"],
         "checker_cmd": "cd lean && lake build SteelVerif.C08.Props && lake env lean SteelVerif/C08/Audit.lean",
         "trusted_base": C.TRUSTED_BASE + ["C08/Spec.lean (CEK machine with R7RS winders, Steel's handler convention) as the reading of the property"],
+        "histories": sum(1 for p in progs if "\n;;;---\n" in p), "programs_invoking_across_evaluations": len(xe),
+        "skipped_undefined_behaviour_K08h": len(ub_skipped),
         "programs": stats["programs"], "evaluations": sum(c["programs"] for c in stats["configs"].values()),
         "distinct_nontrivial": len(set(progs)),
-        "rule": "gen/cont08.py (seeded by VERIF_SEED): random expression programs with captures/escapes/re-entries/winds/handlers/errors + templates (generator, coroutines, amb, with-lock, reset/shift, handler nesting); distinct = different program text; every program observes a trace of notes and the values of its top-level forms",
+        "rule": "gen/cont08.py (seeded by VERIF_SEED): a sixth of the programs are HISTORIES (pieces `;;;---` = separate evaluations on one engine; forms that store a continuation and die with an uncaught error; later pieces invoke the stored continuations); random expression programs with captures/escapes/re-entries/winds/handlers/errors + templates (generator, coroutines, amb, with-lock, reset/shift, handler nesting); distinct = different program text; every program observes a trace of notes and the values of its top-level forms",
         "code_decisions": code, "configs": stats["configs"], "feature_counts": stats["features"], "programs_with_event": stats["events"],
         "spec_outcomes": stats["outcomes"], "disagreements_checked": stats["disagreements_checked"],
         "known_finding_hits": stats["known_hits"], "samples": stats["samples"], "axioms": pr.get("axioms", {}),
@@ -358,8 +388,10 @@ def replay(ctx, path):
     guarded = "(eq? (car (get-tls winders)) entry)" in open("/repo/crates/steel-core/src/scheme/modules/parameters.scm").read()
     impl = run_spec(progs, "impl-guarded" if guarded else "impl")
     known = load_known(ctx)
+    if "self.thread.current_root = continuation.root" in open("/repo/crates/steel-core/src/steel_vm/vm.rs").read():
+        known.pop("K08h", None)
     for cname, env in CONFIGS:
-        real = run_real(progs, env=env)
+        real = run_real(progs, env=env, timeout=60)
         for p, r, m, im in zip(progs, real, spec, impl):
             print("--- [%s]" % cname)
             print(p)
